@@ -439,9 +439,10 @@ func c11Servers(p *ana.Prog, r *ana.Result) {
 			// the request Packet is the one handed to nts.DecodePacket in this function
 			okPkt := false
 			for _, dc := range ana.CallsIn(fn, ana.Q("net/nts.DecodePacket")) {
-				xp := strings.TrimPrefix(ana.AccessPath(dc.Common().Args[0]), "&")
-				if (a1 == xp+".Cookies" && a2 == xp+".CookiePlaceholders") || (a2 == xp+".Cookies" && a1 == xp+".CookiePlaceholders") {
-					okPkt = true
+				for xp := range copyClosure(fn, strings.TrimPrefix(ana.AccessPath(dc.Common().Args[0]), "&"), "Packet") {
+					if (a1 == xp+".Cookies" && a2 == xp+".CookiePlaceholders") || (a2 == xp+".Cookies" && a1 == xp+".CookiePlaceholders") {
+						okPkt = true
+					}
 				}
 			}
 			if !okPkt {
